@@ -30,8 +30,9 @@ class BlockComment(base.RawTokenModel, _value_properties.RWValueWithIndent[str],
 
     @raw_text.setter
     def raw_text(self, raw_text: str) -> None:
+        indent, value = self._parse_value(raw_text)
         self._update_raw_text(raw_text)
-        self._indent, self._value = self._parse_value(raw_text)
+        self._indent, self._value = indent, value
 
     @property
     def value(self) -> str:
